@@ -30,13 +30,18 @@ def walk(root):
     return res
 
 
-def run_step(root, cwd, stepno, dst, names):
+def make_zip(stepno, names):
     buf = io.BytesIO()
     with zipfile.ZipFile(buf, "w") as z:
         for i, n in enumerate(names):
             zi = zipfile.ZipInfo(n)
             z.writestr(zi, b"" if n.endswith("/") else b"step%d-data%d" % (stepno, i))
-    zf = zipfile.ZipFile(io.BytesIO(buf.getvalue()))
+    return zipfile.ZipFile(io.BytesIO(buf.getvalue()))
+
+
+def run_step(root, cwd, stepno, dst, names, zf=None):
+    if zf is None:
+        zf = make_zip(stepno, names)
     read_names = [zi.filename for zi in zf.infolist()]
     before = walk(root)
     ops = []
@@ -82,6 +87,12 @@ def run_step(root, cwd, stepno, dst, names):
     gone = sorted(p for p in before if p not in after)
     D = os.path.realpath(os.path.join(cwd, dst))
     outside = [p for p in changed if not (os.path.realpath(p.rstrip("/")) + "/").startswith(D + "/")] + gone
+    # a file re-written with identical bytes leaves no trace in the snapshot diff: also judge the paths the code
+    # opened for writing / asked makedirs for
+    for kind, p in ops:
+        rp = os.path.realpath(p)
+        if not (rp + "/").startswith(D + "/") and not (kind == "M" and rp == D) and p not in outside:
+            outside.append(p)
     return {"dst": dst, "names": names, "read_names": read_names, "ops": ops, "outcome": outcome,
             "new": changed, "outside": outside, "D": D}
 
@@ -95,10 +106,17 @@ def run_case(case):
     os.makedirs(os.path.join(cwd, "ou"))
     steps = case.get("steps") or [{"dst": case["dst"], "names": case["names"]}]
     res = []
+    shared = None
     for k, st in enumerate(steps):
         names = [n.replace("$ROOT", root).replace("$CWD", cwd) for n in st["names"]]
         dst = st["dst"].replace("$ROOT", root).replace("$CWD", cwd)
-        res.append(run_step(root, cwd, k, dst, names))
+        if case.get("reuse_zip"):
+            # ONE ZipFile object extracted several times (state kept on the object must not leak between calls)
+            if shared is None:
+                shared = make_zip(0, names)
+            res.append(run_step(root, cwd, k, dst, names, zf=shared))
+        else:
+            res.append(run_step(root, cwd, k, dst, names))
     return {"id": case["id"], "cwd": cwd, "steps": res}
 
 
